@@ -544,3 +544,43 @@ where
         f(r, ctx, l, &rec)
     });
 }
+
+/// Two adjacent bytes: first from the 24 interesting values, second all 256, at every offset
+/// 0..=9 inside each kind of field (so that both bytes fall into one 8-byte word at every
+/// phase, and across a word boundary). Carry / borrow tricks of word-at-a-time code
+/// misjudge a byte because of its *neighbour*; single-byte sweeps cannot see that.
+pub fn pair_phase<F>(r: &Runner, sub: &'static str, accept: &(dyn Fn(Entry, u8) -> bool + Sync), f: F)
+where
+    F: Fn(&Runner, &mut Ctx, &mut Local, &CaseRec) -> Result<(), Violation> + Sync,
+{
+    use crate::real::*;
+    const N_FIELDS: u64 = 7;
+    let total = N_FIELDS * 10 * 24 * 256 * 2;
+    r.par_enum("adjacent byte pairs (24 interesting values × all 256 values) at offsets 0..=9 of 7 fields (method, target, reason, header name, header value, folded value, chunk extension) × {short, long} tail", total, |ctx, l, idx| {
+        let mut x = idx;
+        let long_tail = x % 2 == 1;
+        x /= 2;
+        let b2 = (x % 256) as u8;
+        x /= 256;
+        let b1 = crate::gen::INTERESTING[(x % 24) as usize];
+        x /= 24;
+        let off = (x % 10) as usize;
+        let field = x / 10;
+        let pre = vec![b'a'; off];
+        let post: &[u8] = if long_tail { b"bcdefghijklmnopqrstuvwxyz0123456789" } else { b"z" };
+        let (entry, cfg, buf): (Entry, u8, Vec<u8>) = match field {
+            0 => (Entry::ReqParse, 0, [&pre[..], &[b1, b2], post, b" / HTTP/1.1\r\nA: b\r\n\r\n"].concat()),
+            1 => (Entry::ReqParse, 0, [&b"GET /"[..], &pre, &[b1, b2], post, b" HTTP/1.1\r\nA: b\r\n\r\n"].concat()),
+            2 => (Entry::RespParse, 0, [&b"HTTP/1.1 200 "[..], &pre, &[b1, b2], post, b"\r\nA: b\r\n\r\n"].concat()),
+            3 => (Entry::Headers, 0, [&pre[..], &[b1, b2], post, b": v\r\nA: b\r\n\r\n"].concat()),
+            4 => (Entry::Headers, 0, [&b"N: "[..], &pre, &[b1, b2], post, b"\r\nA: b\r\n\r\n"].concat()),
+            5 => (Entry::RespCfg, C_MULTILINE, [&b"HTTP/1.1 200 OK\r\nN: v\r\n "[..], &pre, &[b1, b2], post, b"\r\nA: b\r\n\r\n"].concat()),
+            _ => (Entry::Chunk, 0, [&b"1f;"[..], &pre, &[b1, b2], post, b"\r\nrest"].concat()),
+        };
+        if !accept(entry, cfg) {
+            return Ok(());
+        }
+        let rec = CaseRec::new(sub, entry, cfg, 8, buf);
+        f(r, ctx, l, &rec)
+    });
+}
